@@ -94,25 +94,31 @@ def init (f : List String) : St × String :=
 
 def split3 (s : String) : List String := s.splitOn ":"
 
+def parseField2 (a : Attempt) (k v : String) : Option Attempt :=
+  match k with
+  | "hd" => some { a with hdrOps := a.hdrOps ++ [.del v] }
+  | "u" => some { a with setUrl := some v }
+  | "s" => v.toNat?.map fun n => { a with status := some n }
+  | "w" =>
+    match v.splitOn "." with
+    | [l, s] => match l.toNat?, s.toNat? with
+      | some l, some s => some { a with writes := a.writes ++ [expand l s] }
+      | _, _ => none
+    | _ => none
+  | _ => none
+
 def parseField (a : Attempt) (fld : String) : Option Attempt :=
   match split3 fld with
   | ["-"] => some a
   | ["hj"] => some { a with hijack := true }
   | ["fl"] => some { a with flush := true }
-  | ["r", "all"] => some { a with read := none }
-  | ["r", n] => n.toNat?.map fun n => { a with read := some n }
+  -- r / rc / rn / rp: how the handler reads (ReadAll, io.Copy, io.CopyN, small Reads); a read of n bytes either way
+  | [r, n] =>
+    if (r == "r" || r == "rc" || r == "rn" || r == "rp") && n == "all" then some { a with read := none } else     if r == "r" || r == "rc" || r == "rn" || r == "rp" then n.toNat?.map fun n => { a with read := some n }
+    else parseField2 a r n
   | ["hs", k, v] => some { a with hdrOps := a.hdrOps ++ [.set k v] }
   | ["ha", k, v] => some { a with hdrOps := a.hdrOps ++ [.add k v] }
-  | ["hd", k] => some { a with hdrOps := a.hdrOps ++ [.del k] }
-  | ["u", u] => some { a with setUrl := some u }
-  | ["s", n] => n.toNat?.map fun n => { a with status := some n }
   | ["rh", k, v] => some { a with respHdr := a.respHdr ++ [(k, v)] }
-  | ["w", ls] =>
-    match ls.splitOn "." with
-    | [l, s] => match l.toNat?, s.toNat? with
-      | some l, some s => some { a with writes := a.writes ++ [expand l s] }
-      | _, _ => none
-    | _ => none
   | _ => none
 
 def parseAttempt (s : String) : Option Attempt :=
